@@ -119,6 +119,15 @@ func describeFuncValue(v ssa.Value) string {
 			st := fa.X.Type().Underlying().(*types.Pointer).Elem()
 			return lastType(typeKey(st)) + "." + st.Underlying().(*types.Struct).Field(fa.Field).Name()
 		}
+		// element of a slice that was loaded from a struct field: T.field[]
+		if ia, ok := x.X.(*ssa.IndexAddr); ok {
+			if ld, ok := ia.X.(*ssa.UnOp); ok {
+				if fa, ok := ld.X.(*ssa.FieldAddr); ok {
+					st := fa.X.Type().Underlying().(*types.Pointer).Elem()
+					return lastType(typeKey(st)) + "." + st.Underlying().(*types.Struct).Field(fa.Field).Name() + "[]"
+				}
+			}
+		}
 	case *ssa.Field:
 		st := x.X.Type()
 		return lastType(typeKey(st)) + "." + st.Underlying().(*types.Struct).Field(x.Field).Name()
@@ -157,7 +166,19 @@ func (c *Ctx) callIsPure(cc *ssa.CallCommon) bool {
 	if con := c.findContract(id); con != nil {
 		return con.Pure
 	}
-	return c.P.isPureName(id.short)
+	return c.P.isPureName(id.short) || c.rulePure(id.short)
+}
+
+// rulePure: a callrule active in this function declares the matched callees effect-free
+// on the modelled heap (an assumption, reported in the evidence)
+func (c *Ctx) rulePure(short string) bool {
+	for _, r := range c.activeRules {
+		if r.Pure && matchAny(r.Callees, short) && !matchAny(r.Except, short) {
+			c.definesUsed["callrule "+r.Name+": calls to "+short+" are assumed not to change the modelled heap"] = true
+			return true
+		}
+	}
+	return false
 }
 
 // call executes a call instruction: builtin semantics, contract application or havoc.
@@ -320,7 +341,7 @@ func (c *Ctx) lateHavoc(st *State, con *Contract) {
 }
 
 func (c *Ctx) havocCall(id calleeID, args []*Val, rt types.Type, st *State, deferred bool) *Val {
-	pure := c.P.isPureName(id.short)
+	pure := c.P.isPureName(id.short) || c.rulePure(id.short)
 	if !pure && !deferred {
 		c.havocHeap(st, c.isGhostMap)
 		c.havocCount++
